@@ -28,6 +28,10 @@ type Profile struct {
 	MaxH      uint64
 	MinN, MaxN int
 	Tail      bool // run the stabilised tail after the random prefix (C05)
+	TailQuiet bool // the adversary is silent in the tail
+	TailProp  string // property under which tail violations are reported (default C05)
+	CommitFailures bool // one node's commit callback fails at PRNG-determined heights
+	LenientValidators bool // in a third of the cases the consumers' validators do not object to a missing block
 	NoRejects bool // correct validators never reject good blocks
 	HonestOnly bool // no Byzantine ids at all
 	KeepTrace bool
@@ -202,7 +206,20 @@ func RunCase(seed int64, p *Profile, idx int) *Result {
 			}
 		}
 	}
+	if p.LenientValidators && rng.Intn(3) == 0 {
+		for _, id := range w.Order {
+			w.Nodes[id].BU.AcceptNilBlock = true
+		}
+	}
+	if p.CommitFailures && rng.Intn(2) == 0 {
+		fn := w.Nodes[w.Order[rng.Intn(len(w.Order))]]
+		salt := rng.Intn(1000)
+		fn.FailCommit = func(h uint64) bool { return (int(h)*7+salt)%3 == 0 }
+	}
 	s := &sched{pDrop: rng.Intn(12), pDup: rng.Intn(10), pTimeout: 1 + rng.Intn(8), pSync: rng.Intn(3)}
+	if p.CommitFailures {
+		s.pSync = 2 + rng.Intn(6)
+	}
 	if p.Adversary {
 		s.pAdv = 5 + rng.Intn(25)
 	}
